@@ -195,58 +195,46 @@ func (d *FormatDecoder) Next() (interface{}, error) {
 		return e, nil
 
 	case CaFormatUser:
-		b := make([]byte, hdr.Size-16)
-		if _, err = io.ReadFull(d.r, b); err != nil {
+		s, err := d.readString(hdr, 16)
+		if err != nil {
 			return nil, err
 		}
-		// Strip off the 0 byte
-		b = b[:len(b)-1]
-		return FormatUser{FormatHeader: hdr, Name: string(b)}, nil
+		return FormatUser{FormatHeader: hdr, Name: s}, nil
 
 	case CaFormatGroup:
-		b := make([]byte, hdr.Size-16)
-		if _, err = io.ReadFull(d.r, b); err != nil {
+		s, err := d.readString(hdr, 16)
+		if err != nil {
 			return nil, err
 		}
-		// Strip off the 0 byte
-		b = b[:len(b)-1]
-		return FormatGroup{FormatHeader: hdr, Name: string(b)}, nil
+		return FormatGroup{FormatHeader: hdr, Name: s}, nil
 
 	case CaFormatXAttr:
-		b := make([]byte, hdr.Size-16)
-		if _, err = io.ReadFull(d.r, b); err != nil {
+		s, err := d.readString(hdr, 16)
+		if err != nil {
 			return nil, err
 		}
-		// Strip off the 0 byte
-		b = b[:len(b)-1]
-		return FormatXAttr{FormatHeader: hdr, NameAndValue: string(b)}, nil
+		return FormatXAttr{FormatHeader: hdr, NameAndValue: s}, nil
 
 	case CaFormatSELinux:
-		b := make([]byte, hdr.Size-16)
-		if _, err = io.ReadFull(d.r, b); err != nil {
+		s, err := d.readString(hdr, 16)
+		if err != nil {
 			return nil, err
 		}
-		// Strip off the 0 byte
-		b = b[:len(b)-1]
-		return FormatSELinux{FormatHeader: hdr, Label: string(b)}, nil
+		return FormatSELinux{FormatHeader: hdr, Label: s}, nil
 
 	case CaFormatFilename:
-		b := make([]byte, hdr.Size-16)
-		if _, err = io.ReadFull(d.r, b); err != nil {
+		s, err := d.readString(hdr, 16)
+		if err != nil {
 			return nil, err
 		}
-		// Strip off the 0 byte
-		b = b[:len(b)-1]
-		return FormatFilename{FormatHeader: hdr, Name: string(b)}, nil
+		return FormatFilename{FormatHeader: hdr, Name: s}, nil
 
 	case CaFormatSymlink:
-		b := make([]byte, hdr.Size-16)
-		if _, err = io.ReadFull(d.r, b); err != nil {
+		s, err := d.readString(hdr, 16)
+		if err != nil {
 			return nil, err
 		}
-		// Strip off the 0 byte
-		b = b[:len(b)-1]
-		return FormatSymlink{FormatHeader: hdr, Target: string(b)}, nil
+		return FormatSymlink{FormatHeader: hdr, Target: s}, nil
 
 	case CaFormatDevice:
 		if hdr.Size != 32 {
@@ -264,6 +252,9 @@ func (d *FormatDecoder) Next() (interface{}, error) {
 		return e, nil
 
 	case CaFormatPayload:
+		if hdr.Size < 16 {
+			return nil, InvalidFormat{"payload size too small"}
+		}
 		size := hdr.Size - 16
 		r := io.LimitReader(d.r, int64(size))
 		// Record the reader to be read fully on the next iteration if the caller
@@ -272,8 +263,11 @@ func (d *FormatDecoder) Next() (interface{}, error) {
 		return FormatPayload{FormatHeader: hdr, Data: r}, nil
 
 	case CaFormatFCaps:
-		b := make([]byte, hdr.Size-16)
-		if _, err = io.ReadFull(d.r, b); err != nil {
+		if hdr.Size < 16 {
+			return nil, InvalidFormat{"fcaps size too small"}
+		}
+		b, err := d.r.ReadN(hdr.Size - 16)
+		if err != nil {
 			return nil, err
 		}
 		return FormatFCaps{FormatHeader: hdr, Data: b}, nil
@@ -288,13 +282,10 @@ func (d *FormatDecoder) Next() (interface{}, error) {
 		if err != nil {
 			return nil, err
 		}
-		b := make([]byte, hdr.Size-32)
-		if _, err = io.ReadFull(d.r, b); err != nil {
+		e.Name, err = d.readString(hdr, 32)
+		if err != nil {
 			return nil, err
 		}
-		// Strip off the 0 byte
-		b = b[:len(b)-1]
-		e.Name = string(b)
 		return e, nil
 
 	case CaFormatACLGroup:
@@ -307,13 +298,10 @@ func (d *FormatDecoder) Next() (interface{}, error) {
 		if err != nil {
 			return nil, err
 		}
-		b := make([]byte, hdr.Size-32)
-		if _, err = io.ReadFull(d.r, b); err != nil {
+		e.Name, err = d.readString(hdr, 32)
+		if err != nil {
 			return nil, err
 		}
-		// Strip off the 0 byte
-		b = b[:len(b)-1]
-		e.Name = string(b)
 		return e, nil
 
 	case CaFormatACLGroupObj:
@@ -345,28 +333,33 @@ func (d *FormatDecoder) Next() (interface{}, error) {
 		return e, nil
 
 	case CaFormatGoodbye:
+		if hdr.Size < 16 {
+			return nil, InvalidFormat{"goodbye size too small"}
+		}
 		n := (hdr.Size - 16) / 24
-		items := make([]FormatGoodbyeItem, n)
-		e := FormatGoodbye{FormatHeader: hdr, Items: items}
+		// The number of items comes from the stream, grow the list as they're read
+		var items []FormatGoodbyeItem
 		for i := uint64(0); i < n; i++ {
-			items[i].Offset, err = d.r.ReadUint64()
+			var item FormatGoodbyeItem
+			item.Offset, err = d.r.ReadUint64()
 			if err != nil {
 				return nil, err
 			}
-			items[i].Size, err = d.r.ReadUint64()
+			item.Size, err = d.r.ReadUint64()
 			if err != nil {
 				return nil, err
 			}
-			items[i].Hash, err = d.r.ReadUint64()
+			item.Hash, err = d.r.ReadUint64()
 			if err != nil {
 				return nil, err
 			}
+			items = append(items, item)
 		}
 		// Ensure we have the tail marker in the last item
 		if len(items) < 1 || items[len(items)-1].Hash != CaFormatGoodbyeTailMarker {
 			return nil, InvalidFormat{"tail marker not found"}
 		}
-		return e, nil
+		return FormatGoodbye{FormatHeader: hdr, Items: items}, nil
 
 	case CaFormatIndex:
 		e := FormatIndex{FormatHeader: hdr}
@@ -438,6 +431,20 @@ func (d *FormatDecoder) Next() (interface{}, error) {
 	default:
 		return nil, fmt.Errorf("unsupported header type %x", hdr.Type)
 	}
+}
+
+// readString reads the remainder of an element that consists of a 0-terminated
+// string following 'fixed' bytes of header and fixed-size fields.
+func (d *FormatDecoder) readString(hdr FormatHeader, fixed uint64) (string, error) {
+	if hdr.Size <= fixed { // needs at least the terminating 0 byte
+		return "", InvalidFormat{fmt.Sprintf("invalid size %d for element type %x", hdr.Size, hdr.Type)}
+	}
+	b, err := d.r.ReadN(hdr.Size - fixed)
+	if err != nil {
+		return "", err
+	}
+	// Strip off the 0 byte
+	return string(b[:len(b)-1]), nil
 }
 
 // FormatEncoder takes casync format elements and encodes them into a stream.
